@@ -600,8 +600,9 @@ func c10hash(p *Prog, r *Report) {
 	}
 }
 
-func c10itx(p *Prog, r *Report) {
-	const rule = "C10.itx"
+func c10itx(p *Prog, r *Report) { itxRule(p, r, "C10.itx") }
+
+func itxRule(p *Prog, r *Report, rule string) {
 	r.Rule(rule, 2, "an internal transaction enters the pool only after Verify()==true on it (join request) or when built and signed locally (leave)")
 	sites := p.callsAnywhere(named(NODE + ".core.addInternalTransaction"))
 	if len(sites) == 0 {
